@@ -897,6 +897,23 @@ func (fr *Frame) evalCall(sc *Scope, x *ECall) Val {
 		bv := Term{fmt.Sprintf("%s!q%d", id.Name, fr.top.nbound), fr.mapKeySort(mt)}
 		body := fr.evalBool(sc.with(id.Name, Val{K: KKey, T: mt.Key(), C: []Term{bv}}), x.Args[2])
 		return scalar(boolT, Forall([]Term{bv}, body))
+	case "rootObj":
+		// rootObj(x): x's object is an allocation of its own (not an array embedded in a struct)
+		argn(1)
+		v := fr.evalExpr(sc, x.Args[0])
+		return scalar(boolT, Eq(fr.top.dotFld(fr.refOf(v)), IntT(0)))
+	case "rootBytesKept":
+		// rootBytesKept(): the byte content of every root object is what it was in the pre-state
+		argn(0)
+		if sc.old == nil {
+			cfail("rootBytesKept() needs a pre-state")
+		}
+		fr.top.nbound++
+		o := Term{fmt.Sprintf("o!q%d", fr.top.nbound), SInt}
+		hn := elemHeap(types.Typ[types.Uint8], "")
+		now := fr.heap(sc.st, hn, byteHeapSort)
+		was := fr.heap(sc.old, hn, byteHeapSort)
+		return scalar(boolT, Forall([]Term{o}, Implies(And(Not(Eq(o, Nil)), Eq(fr.top.dotFld(o), IntT(0))), Eq(Select(now, o), Select(was, o)))))
 	case "dynNonNil":
 		// dynNonNil(x): the interface value x is not nil and does not hold a nil pointer
 		argn(1)
